@@ -53,8 +53,11 @@ def gen_bash(rng):
         return ("printf '%%s\\n' %s" % u, u + '\r\n', 'plain')
     if r < 0.30:
         return ("printf '%%s' %s" % u, u, 'nonl')
-    if r < 0.38:
+    if r < 0.36:
         return ('true', '', 'empty')
+    if r < 0.38:
+        # a command made of blanks and line ends only is a command like any other: nothing is printed
+        return (rng.choice([' ', '\n', '   \n', '\n\n', '\t']), '', 'empty')
     if r < 0.42:
         # several complete commands on separate lines: each prints when its own line is entered
         v, w = uid(rng), uid(rng)
@@ -102,8 +105,10 @@ def gen_py(rng):
         ])
     if r < 0.2:
         return ("print('%s')" % u, u + '\r\n', 'plain')
-    if r < 0.3:
+    if r < 0.28:
         return ('x%s = %d' % (u, rng.randint(0, 99)), '', 'empty')
+    if r < 0.3:
+        return (rng.choice([' ', '\n', '   \n', '\n\n']), '', 'empty')
     if r < 0.34:
         v = uid(rng)
         return ("print('%s')\nprint('%s')\n1+1" % (u, v), '%s\r\n%s\r\n2\r\n' % (u, v), 'multiline')
